@@ -705,6 +705,32 @@ func ruleMemoKeyIn(label string, roots ...string) ruleFn {
 			if p.via != nil {
 				what += " (kept through " + fnName(p.via) + ")"
 			}
+			// R3k.samekey: the entry is kept under the key it was looked for. A memo that is
+			// consulted with one value and filled under another (the key after a part has been
+			// stripped off it, say) answers the next question about the stripped form with the
+			// answer to this one. Judged where both accesses are made directly in this function.
+			if p.inner == nil && p.k != nil {
+				direct, same := 0, false
+				for _, g := range accs {
+					if g.fn != fn || g.got == nil || g.inner != nil || g.k == nil || !sameMemoAcc(g, p) {
+						continue
+					}
+					// the look-up this put belongs to comes before it on every path (a container
+					// filled in one loop and read in a later one is an index with keys of its own)
+					if !instrDominates(g.at, p.at) {
+						continue
+					}
+					direct++
+					if sameValue(unwrap(g.k), unwrap(p.k)) {
+						same = true
+					}
+				}
+				if direct > 0 {
+					r.Check(same, "R3k.samekey", fnName(fn), what, r.P.pos(p.at.Pos()),
+						"the entry of a memo is kept under the key it was looked for",
+						"this "+p.kind+" is consulted under one key and filled under another ("+p.k.Name()+"): the entry answers a later question it was not computed for")
+				}
+			}
 			r.Check(len(missing) == 0, rule, fnName(fn), what, r.P.pos(p.at.Pos()),
 				"everything the remembered value is computed from is part of the key it is kept under (or cannot change while the memo lives)",
 				"the value kept in this "+p.kind+" is computed from "+strings.Join(missing, ", ")+", which the key does not cover: a later question that differs only there is given the earlier answer")
@@ -2359,4 +2385,120 @@ func ruleMergeGlobalState(r *Run) {
 		}
 	}
 	r.OKTrivial(rule, "", "functions reachable from Merge", "-", strconv.Itoa(len(fns))+" functions scanned, "+strconv.Itoa(n)+" write(s) to package-level state")
+}
+
+// ruleNilIntoDerefField (R7.P3.store): a pointer field that some function of the module
+// dereferences without looking at it first (`ctx.Request.Original.Context()`) is never given a
+// nil: no store of a nil constant into it, and no store of a parameter for which a call site of
+// the module hands in a nil constant. The reader and the writer each look fine alone.
+func ruleNilIntoDerefField(r *Run) {
+	const rule = "R7.P3.store"
+	isNil := func(v ssa.Value) bool {
+		c, ok := v.(*ssa.Const)
+		return ok && c.IsNil()
+	}
+	// fields dereferenced unguarded
+	deref := map[*types.Var]string{}
+	for _, fn := range r.P.Funcs {
+		if !inModule(fn) {
+			continue
+		}
+		for _, ins := range allInstrs(fn) {
+			ld, ok := ins.(*ssa.UnOp)
+			if !ok || ld.Op != token.MUL {
+				continue
+			}
+			fa, ok := ld.X.(*ssa.FieldAddr)
+			if !ok {
+				continue
+			}
+			f := fieldOf(fa)
+			if f == nil || f.Pkg() == nil || !strings.HasPrefix(f.Pkg().Path(), modPath) {
+				continue
+			}
+			if _, isPtr := f.Type().Underlying().(*types.Pointer); !isPtr {
+				continue
+			}
+			refs := ld.Referrers()
+			if refs == nil {
+				continue
+			}
+			used, looked := false, false
+			for _, u := range *refs {
+				switch y := u.(type) {
+				case *ssa.BinOp:
+					if (y.Op == token.EQL || y.Op == token.NEQ) && (isNil(y.X) || isNil(y.Y)) {
+						looked = true
+					}
+				case ssa.CallInstruction:
+					c := y.Common()
+					if !c.IsInvoke() && len(c.Args) > 0 && c.Args[0] == ssa.Value(ld) && c.Signature().Recv() != nil {
+						// a method of another package called on the pointer: it reads the pointee
+						if sc := c.StaticCallee(); sc != nil && !inModule(sc) {
+							used = true
+						}
+					}
+				case *ssa.FieldAddr:
+					if y.X == ssa.Value(ld) {
+						used = true
+					}
+				case *ssa.UnOp:
+					if y.Op == token.MUL && y.X == ssa.Value(ld) {
+						used = true
+					}
+				}
+			}
+			if used && !looked {
+				if _, seen := deref[f]; !seen {
+					deref[f] = fnName(fn) + " (" + r.P.pos(ld.Pos()) + ")"
+				}
+			}
+		}
+	}
+	n := 0
+	for _, fn := range r.P.Funcs {
+		if !inModule(fn) {
+			continue
+		}
+		for _, ins := range allInstrs(fn) {
+			st, ok := ins.(*ssa.Store)
+			if !ok {
+				continue
+			}
+			fa, ok := st.Addr.(*ssa.FieldAddr)
+			if !ok {
+				continue
+			}
+			f := fieldOf(fa)
+			where, hot := deref[f]
+			if f == nil || !hot {
+				continue
+			}
+			n++
+			bad := ""
+			v := st.Val
+			if isNil(v) {
+				bad = "a nil constant is stored"
+			} else if par, ok := v.(*ssa.Parameter); ok {
+				for i, q := range fn.Params {
+					if q != par {
+						continue
+					}
+					for _, e := range r.P.CG.In[origin(fn)] {
+						if e.Site == nil {
+							continue
+						}
+						a := e.Site.Common().Args
+						if i < len(a) && isNil(a[i]) {
+							bad = "the parameter " + par.Name() + " is stored, and " + fnName(e.Caller) + " (" + r.P.pos(e.Site.Pos()) + ") hands in nil for it"
+						}
+					}
+				}
+			}
+			r.Check(bad == "", rule, fnName(fn), "store into "+f.Name(), r.P.pos(st.Pos()),
+				"the field is dereferenced without a test in "+where+"; what is stored here is not a nil constant",
+				"the field "+f.Name()+" is dereferenced without a test in "+where+", and here "+bad+": the reader panics (outside every recover when it runs in a goroutine of its own)")
+		}
+	}
+	r.OKTrivial(rule, "", "fields dereferenced unguarded", "-", strconv.Itoa(len(deref))+" pointer field(s) of the module dereferenced without a test, "+strconv.Itoa(n)+" store(s) into them")
 }
